@@ -479,6 +479,21 @@ class MicrogridApiSource:
             _logger.error("Unknown component ID: %d in request %s", comp_id, request)
             return
 
+        try:
+            self._get_data_extraction_method(category, request.metric_id)
+        except (KeyError, ValueError):
+            # A metric the component's data does not provide would make every
+            # (re)start of the component's streaming task fail, which would also
+            # stop the streams of all other requests for that component.
+            _logger.error(
+                "Unsupported metric %s for component %d (%s) in request %s",
+                request.metric_id.name,
+                comp_id,
+                category.name,
+                request,
+            )
+            return
+
         self._req_streaming_metrics.setdefault(comp_id, {}).setdefault(
             request.metric_id, []
         )
